@@ -126,3 +126,29 @@ Definition tables_agree_b (ta tb : list (text * score)) : bool :=
   forallb (fun k => score_opt_eqb (tlookup k ta) (tlookup k tb)) (map fst ta ++ map fst tb).
 Definition same_names_b (a b : list text) : bool :=
   forallb (fun k => tmem k b) a && forallb (fun k => tmem k a) b.
+
+(* ---- finer observations used by the second batch of theorems (C16_play_tone, C16_melody_notes,
+   C16_beep_duration, C16_last_frequency_exact) ---- *)
+(* the delay() arguments a score played at [beat_ms] ms per beat must produce, note by note *)
+Definition note_delays (beat_ms : Q) (seq : list (Q * Q)) : list Z :=
+  flat_map (fun fb => if qlt q0 (snd fb * beat_ms)%Q then [Qfloor (snd fb * beat_ms)%Q] else []) seq.
+Definition beats_total (seq : list (Q * Q)) : Q := fold_right Qplus 0%Q (map snd seq).
+Definition beats_nonneg (seq : list (Q * Q)) : bool := forallb (fun fb => qle q0 (snd fb)) seq.
+
+(* the value get_last_frequency() must have after a call made in state [st]: the unrounded frequency of
+   the last tone the call sounds; unchanged if it sounds none *)
+Definition last_after (tbl : list (text * score)) (st : bz) (o : op) : Q :=
+  match o with
+  | PlayTone f _ => if qlt q0 f then f else b_last st
+  | Stop => b_last st
+  | Beep f _ _ times =>
+      let target := clamp0 (match f with Some q => q | None => b_last st end) in
+      if qlt q0 target && (1 <=? c_int times) then target else b_last st
+  | Sweep s e _ steps =>
+      last (positives (sweep_freqs (clamp0 s) (clamp0 e) (Z.max 1 (c_int steps)))) (b_last st)
+  | Melody name _ =>
+      match tlookup name tbl with
+      | Some (_, seq) => last (positives (map fst seq)) (b_last st)
+      | None => b_last st
+      end
+  end.
